@@ -409,7 +409,7 @@ impl Check for HostileSegments {
         "C17"
     }
     fn rule(&self) -> String {
-        "generated: a legitimate C01/C03 schedule (incl. closes) interleaved with crafted segments delivered to either endpoint from its peer's address: all 64 flag sets (mass on ACK, PSH-ACK, FIN-ACK, SYN, SYN-ACK, RST), seq at RCV.NXT+{-2..2}, RCV.NXT+WND+{-1,0,1}, RCV.NXT+0..70000, RCV.NXT+2^31+-1, random; ack at SND.UNA-1, SND.UNA+0..2, SND.NXT, SND.NXT+1..3, random; window 65535 / 0 / <200 / random (so shrinking windows occur); payload 0..MSS; also at LISTEN and CLOSED. oracles: no TCB call panics; every new data segment ends at or before SND.UNA+SND.WND of the snapshot taken before the segments() call (+1 while the own SYN is unacknowledged); a crafted segment that must be rejected (entirely outside [RCV.NXT-1, RCV.NXT+WND) in a synchronised state, or neither SYN nor RST in SYN-SENT) leaves status() unchanged and releases nothing; as long as only such rejectable segments were forged the stream keeps C01's prefix property; a fair phase afterwards runs without panic. non-trivial: at least one crafted segment was processed in a synchronised state with seq or ack within 2 of a window edge / SND.UNA / SND.NXT. distinct: hash of decoded schedule".into()
+        "generated: a legitimate C01/C03 schedule (incl. closes) interleaved with crafted segments delivered to either endpoint from its peer's address: all 64 flag sets (mass on ACK, PSH-ACK, FIN-ACK, SYN, SYN-ACK, RST), seq at RCV.NXT+{-2..2}, RCV.NXT+WND+{-1,0,1}, RCV.NXT+0..70000, RCV.NXT+2^31+-1, random; ack at SND.UNA-1, SND.UNA+0..2, SND.NXT, SND.NXT+1..3, random; window 65535 / 0 / <200 / random (so shrinking windows occur); payload 0..MSS; also at LISTEN and CLOSED. oracles: no TCB call panics; every new data segment ends at or before SND.UNA+SND.WND of the snapshot taken before the segments() call (+1 while the own SYN is unacknowledged), and a segment that is certainly the newest acknowledgment (processed at once, seq = RCV.NXT, ack advancing SND.UNA) leaves SND.WND equal to the window it advertises; a crafted segment that must be rejected (entirely outside [RCV.NXT-1, RCV.NXT+WND) in a synchronised state, or neither SYN nor RST in SYN-SENT) leaves status() unchanged and releases nothing; as long as only such rejectable segments were forged the stream keeps C01's prefix property; a fair phase afterwards runs without panic. non-trivial: at least one crafted segment was processed in a synchronised state with seq or ack within 2 of a window edge / SND.UNA / SND.NXT. distinct: hash of decoded schedule".into()
     }
     fn assumptions(&self) -> Vec<String> {
         vec!["an acceptable forged segment (in window) may legitimately change state and data; from then on only the no-panic and send-window oracles apply".into()]
@@ -452,6 +452,9 @@ impl Check for HostileSegments {
         }
         if w.stats.injected_near_edge > 0 {
             ctx.class("forgery_near_window_edge");
+        }
+        if w.stats.window_updates_checked > 0 {
+            ctx.class("window_change_by_newest_ack_checked");
         }
         if (0..2).any(|s| matches!(w.state(s), Some(State::Established))) {
             ctx.class("connection_survived");
